@@ -22,7 +22,9 @@ def obligations(tier):
         obs.append(dict(name=f"save_fails[{['unserializable value','chart cannot be serialized','unencodable character (cp1252)','lone surrogate (utf-8)'][kind]}]", func="save_fails", pre=f"kind == {kind}", timeout=T,
                         bounds="backup/output configuration, both formats"))
     for ssc in (False, True):
-        obs.append(dict(name=f"fs_fault[ssc={ssc}]", func="fs_fault", pre=f"ssc == {ssc}", timeout=T, bounds="fault at the k-th filesystem operation, k symbolic in 1..14, backup/output configuration"))
+        for op in range(1, 7):
+            obs.append(dict(name=f"fs_fault[ssc={ssc},edit={op}]", func="fs_fault", pre=f"ssc == {ssc} and op == {op}", timeout=T,
+                            bounds="fault at the k-th filesystem operation, k symbolic in 1..14, backup/output configuration; body edit: set / delete / add property, append chart + edit, in-place chart edit, chart removed"))
     return obs
 
 
